@@ -650,9 +650,10 @@ class World:
             self._pending_host = None
         # iteration order of these two sets would otherwise depend on object addresses; only a *set* is replaced - if the
         # library keeps its listeners in another kind of container, that container's semantics are what gets explored
-        if type(zc.record_manager.listeners) is set:
-            zc.record_manager.listeners = OrderedSet()
-        if type(zc._notify_futures) is set:
+        rm = getattr(zc, "record_manager", None)
+        if type(getattr(rm, "listeners", None)) is set:
+            rm.listeners = OrderedSet()
+        if type(getattr(zc, "_notify_futures", None)) is set:
             zc._notify_futures = OrderedSet()
         h.zc = zc
         h.azc = AsyncZeroconf(zc=zc) if asyncio_api else None
